@@ -363,6 +363,16 @@ class PartialJoin(UnaryOperation):
                 # include the columns added by the join.  Note that because we
                 # require common_columns to be explicit at this point, the
                 # projection cannot change them.
+                if hidden := (current.target.columns - current.columns) & self.fixed.columns:
+                    # Columns the projection removes would come back under
+                    # the join and be confused with the fixed relation's
+                    # columns of the same name.
+                    return UnaryCommutator(
+                        first=None,
+                        second=current.operation,
+                        done=False,
+                        messages=(f"{current.operation} hides columns {set(hidden)} also present in {self.fixed}",),
+                    )
                 return UnaryCommutator(
                     first=self,
                     second=Projection(frozenset(self.applied_columns(current))),
